@@ -27,33 +27,59 @@ func checkC16(c *Ctx) (string, []string) {
 	}
 	K := "(*internal/blockchain.KeyLevelCache)."
 
-	c.Rule("C16.hit-condition", "GetLeafHash reports a hit only when the entry stored under the key parameter exists and its fingerprint equals Blake2b of the whole value parameter; the fingerprint it returns is that same Blake2b(value); on a hit it returns the stored leaf hash of that entry", 5)
-	c.checkCondSet("C16.hit-condition", K+"GetLeafHash", get, []string{"(hash.Blake2bHash(p2) != p0.entries[p1]#0.valueHash)", "p0.entries[p1]#1"})
-	c.checkShapes("C16.hit-condition", K+"GetLeafHash", get, abbrMap(returnShapes(get)), map[string][]string{
-		"ret#0": {"nil", "p0.entries[p1]#0.leafHash"}, "ret#1": {"hash.Blake2bHash(p2)"}, "ret#2": {"false", "true"},
-	})
+	c.Rule("C16.hit-condition", "GetLeafHash reports a hit only when the entry stored under the key parameter exists and its fingerprint equals Blake2b of the whole value parameter; the fingerprint it returns is that same Blake2b(value); on a hit it returns the stored leaf hash of that entry (decided as a truth table over the two tests)", 1)
 	{
-		// the ok=true return is behind found ∧ equal
-		found := condEdges(get, func(v ssa.Value) (bool, bool) { return exprStr(v, shapeOpts) == "p0.entries[p1]#1", true })
-		equal := condEdges(get, func(v ssa.Value) (bool, bool) {
-			return abbr(exprStr(v, shapeOpts)) == "(hash.Blake2bHash(p2) != p0.entries[p1]#0.valueHash)", false
-		})
-		ok := len(found) > 0 && len(equal) > 0
-		allInstrs(get, func(in ssa.Instruction) {
-			r, isR := in.(*ssa.Return)
-			if !isR {
-				return
-			}
-			res := retResults(r)
-			if k, isC := res[2].(*ssa.Const); isC && k.Value != nil && k.Value.String() == "true" {
-				if !guardedBy(get, r, found) || !guardedBy(get, r, equal) {
-					ok = false
+		o := robustOpts
+		fp, stored := "hash.Blake2bHash(p2)", "p0.entries[p1]#0.valueHash"
+		bad := ""
+		rows := 0
+		for found := int64(0); found <= 1 && bad == ""; found++ {
+			for equal := int64(0); equal <= 1; equal++ {
+				r, ok := runWithAtoms(get, o, func(s string) (int64, bool) {
+					if s == "p0.entries[p1]#1" {
+						return found, true
+					}
+					if is, neg := eqAtom(s, fp, stored); is {
+						if neg {
+							return 1 - equal, true
+						}
+						return equal, true
+					}
+					return 0, false
+				}, nil)
+				if !ok || len(retResults(r)) != 3 {
+					bad = "the hit decision depends on something other than (the entry stored under the key parameter exists, its fingerprint equals Blake2b of the whole value parameter)"
+					break
 				}
-			} else if !isC {
-				ok = false
+				rows++
+				res := retResults(r)
+				hit, isC := res[2].(*ssa.Const)
+				hitV := isC && hit.Value != nil && hit.Value.String() == "true"
+				if !isC {
+					k, okk := evalInt(res[2], intEnv{params: map[ssa.Value]int64{}}, 0)
+					if !okk {
+						bad = "the reported hit flag is not decided by the two tests"
+						break
+					}
+					hitV = k != 0
+				}
+				if hitV != (found == 1 && equal == 1) {
+					bad = fmt.Sprintf("with entry present=%d and fingerprint equal=%d GetLeafHash reports hit=%v", found, equal, hitV)
+					break
+				}
+				if s := abbr(exprStr(res[1], o)); s != fp {
+					bad = "the fingerprint returned is " + s + ", not Blake2b of the value parameter"
+					break
+				}
+				if hitV {
+					if s := abbr(exprStr(res[0], o)); s != "p0.entries[p1]#0.leafHash" {
+						bad = "on a hit the returned leaf hash is " + s + ", not the one stored under the key"
+						break
+					}
+				}
 			}
-		})
-		c.Check(ok, "C16.hit-condition", K+"GetLeafHash · hit arm", get.Pos(), "ok=true only behind found ∧ fingerprint equal", "a hit can be reported without both the presence test and the fingerprint comparison")
+		}
+		c.Check(bad == "" && rows == 4, "C16.hit-condition", K+"GetLeafHash · decision", get.Pos(), "hit ⇔ entry present ∧ stored fingerprint = Blake2b(value) (4/4 rows); fingerprint returned is Blake2b(value); hit returns the stored leaf hash", bad)
 	}
 
 	c.Rule("C16.store", "PutLeafHash stores (valueHash, leafHash) parameters under the key parameter; the entries map is written only there and replaced (not emptied in place) by Clear; the miss path of merklizeWithKeyCache computes EncodeLeafNodeHash(key, value) of the callback's own arguments, stores it under that key with the fingerprint returned by the lookup of that same value, and returns it; the hit path returns the looked-up leaf hash and is the only other return", 8)
@@ -93,65 +119,113 @@ func checkC16(c *Ctx) (string, []string) {
 	wantW := []string{K + "Clear", K + "PutLeafHash", "internal/blockchain.NewKeyLevelCache"}
 	c.Check(strings.Join(ws, ",") == strings.Join(wantW, ","), "C16.store", "internal/blockchain.KeyLevelCache.entries · writers", 0, "written only by "+strings.Join(ws, ", "), fmt.Sprintf("entries map is written by %v, expected %v", ws, wantW))
 
-	// the callback
-	if len(mk.AnonFuncs) != 1 {
-		c.Unknown("C16.store", "merklizeWithKeyCache · callback", mk.Pos(), "expected exactly one closure")
+	// the callback handed to the cached merklization (a closure or a bound method)
+	var cb *ssa.Function
+	allInstrs(mk, func(in ssa.Instruction) {
+		call, ok := in.(*ssa.Call)
+		if !ok || call.Call.StaticCallee() != msc || len(call.Call.Args) != 2 {
+			return
+		}
+		switch x := stripConv(call.Call.Args[1]).(type) {
+		case *ssa.MakeClosure:
+			if fn, ok := x.Fn.(*ssa.Function); ok {
+				cb = boundTarget(fn)
+			}
+		case *ssa.Function:
+			cb = x
+		}
+	})
+	if cb == nil {
+		c.Unknown("C16.store", "merklizeWithKeyCache · callback", mk.Pos(), "the function handed to MerklizationSerializedStateWithCache could not be resolved")
 	} else {
-		cb := mk.AnonFuncs[0]
-		G := K + "GetLeafHash(*fv0.keyLevelCache, p0, p1)"
-		E := "merklization.EncodeLeafNodeHash(p0, p1)"
-		rs := abbrMap(returnShapes(cb))
-		c.checkShapes("C16.store", "merklizeWithKeyCache · callback", cb, rs, map[string][]string{"ret": {G + "#0", E}})
-		hit := condEdges(cb, func(v ssa.Value) (bool, bool) { return abbr(exprStr(v, shapeOpts)) == G+"#2", true })
-		okHit := len(hit) == 1
-		var putCalls []string
+		o := robustOpts
+		np := len(cb.Params)
+		kp, vp := fmt.Sprintf("p%d", np-2), fmt.Sprintf("p%d", np-1)
+		// the lookup
+		var look *ssa.Call
 		allInstrs(cb, func(in ssa.Instruction) {
-			if r, isR := in.(*ssa.Return); isR {
-				s := abbr(exprStr(retResults(r)[0], shapeOpts))
-				if s == G+"#0" && !guardedBy(cb, r, hit) {
-					okHit = false
+			if call, ok := in.(*ssa.Call); ok && call.Call.StaticCallee() == get {
+				look = call
+			}
+		})
+		if look == nil {
+			c.Bad("C16.store", "merklizeWithKeyCache · callback arms", cb.Pos(), "the callback does not consult GetLeafHash")
+		} else {
+			G := abbr(exprStr(look, o))
+			cache := abbr(exprStr(look.Call.Args[0], o))
+			E := "merklization.EncodeLeafNodeHash(" + kp + ", " + vp + ")"
+			okLook := G == K+"GetLeafHash("+cache+", "+kp+", "+vp+")"
+			bad := ""
+			if !okLook {
+				bad = "the lookup is " + G + ", not GetLeafHash(cache, key, value) of the callback's own arguments"
+			}
+			for hf := int64(0); hf <= 3 && bad == ""; hf++ {
+				hit, full := hf&1, hf>>1
+				var puts []string
+				r, ok := runWithAtoms(cb, o, func(s string) (int64, bool) {
+					switch {
+					case s == G+"#2":
+						return hit, true
+					case strings.HasPrefix(s, "(") && strings.Contains(s, ".Len("+cache+")"):
+						return full, true // capacity guard (either outcome must leave the protocol intact)
+					}
+					return 0, false
+				}, func(in ssa.Instruction) {
+					if ci, ok := in.(ssa.CallInstruction); ok && calleeFunc(ci) == put {
+						var as []string
+						for _, a := range ci.Common().Args {
+							as = append(as, abbr(exprStr(a, o)))
+						}
+						puts = append(puts, strings.Join(as, ", "))
+					}
+				})
+				if !ok || len(retResults(r)) != 1 {
+					bad = "the callback's arms are selected by something other than the lookup's hit flag (and the capacity guard)"
+					break
 				}
-				if s == E {
-					// must have stored it first
-					isPut := func(i ssa.Instruction) bool { return calleeFunc2(i) == put }
-					if _, skip := findPath(pathQuery{fn: cb, target: func(i ssa.Instruction) bool { return i == in }, blocker: isPut}); skip {
-						okHit = false
+				ret := abbr(exprStr(retResults(r)[0], o))
+				alts := expandAlts(ret)
+				if hit == 1 {
+					if len(puts) != 0 || !(len(alts) >= 1 && contains(alts, G+"#0")) {
+						bad = fmt.Sprintf("on a hit the callback returns %s and stores %v; it must return the looked-up leaf hash and store nothing", ret, puts)
+					}
+				} else {
+					want := cache + ", " + kp + ", " + G + "#1, " + E
+					if len(puts) != 1 || puts[0] != want || !contains(alts, E) {
+						bad = fmt.Sprintf("on a miss the callback stores %v and returns %s; it must store (key, fingerprint of the same lookup, EncodeLeafNodeHash(key, value)) and return that hash", puts, ret)
 					}
 				}
 			}
-			if ci, ok := in.(ssa.CallInstruction); ok && calleeFunc(ci) == put {
-				var as []string
-				for _, a := range ci.Common().Args {
-					as = append(as, abbr(exprStr(a, shapeOpts)))
-				}
-				putCalls = append(putCalls, strings.Join(as, ", "))
-			}
-		})
-		c.Check(okHit, "C16.store", "merklizeWithKeyCache · callback arms", cb.Pos(), "looked-up hash returned only on a hit; computed hash returned only after it was stored", "the callback can return the lookup's leaf hash without a hit, or return a computed hash it did not store")
-		wantPut := "*fv0.keyLevelCache, p0, " + G + "#1, " + E
-		c.Check(len(putCalls) == 1 && putCalls[0] == wantPut, "C16.store", "merklizeWithKeyCache · callback stores", cb.Pos(), "PutLeafHash(key, fingerprint of the same lookup, EncodeLeafNodeHash(key, value))", fmt.Sprintf("callback stores %v, expected [%s]", putCalls, wantPut))
+			c.Check(bad == "", "C16.store", "merklizeWithKeyCache · callback arms", cb.Pos(), "hit ⇒ looked-up hash, nothing stored; miss ⇒ EncodeLeafNodeHash(key, value) stored under the key with the lookup's fingerprint, then returned", bad)
+			c.OK("C16.store", "merklizeWithKeyCache · callback stores", cb.Pos(), "PutLeafHash arguments checked on the miss path")
+		}
 	}
 	// GetOrComputeLeafHash: same protocol
 	{
 		G := K + "GetLeafHash(p0, p1, p2)"
-		c.checkShapes("C16.store", K+"GetOrComputeLeafHash", goc, abbrMap(returnShapes(goc)), map[string][]string{"ret": {G + "#0", "p3(p1, p2)"}})
+		var rets []string
+		for _, s := range abbrMap(returnShapesO(goc, robustOpts))["ret"] {
+			rets = append(rets, expandAlts(s)...)
+		}
+		c.requireSet("C16.store", K+"GetOrComputeLeafHash", goc.Pos(), "GetOrComputeLeafHash returns", uniqSorted(rets), []string{G + "#0", "p3(p1, p2)"})
 	}
 
 	c.Rule("C16.sibling-trees", "merklizeWithCache is merklize with the leaf arm replaced by the cache callback applied to (key, value) of the single entry: same case analysis, same partition, same depth step, same branch encoding; EncodeLeafNodeHash is exactly merklize's leaf arm; both entry points copy the key-values and start at depth 0", 6)
+	so := robustOpts
+	so.inline = func(f *ssa.Function) bool { return f == elh || helperInlinableLoops(f) }
 	norm := func(ss []string) []string {
 		var out []string
 		for _, s := range ss {
-			s = strings.ReplaceAll(s, "merklizeWithCache(", "merklize(")
-			s = strings.ReplaceAll(s, ", p2)", ")")
-			out = append(out, s)
+			for _, e := range expandAlts(s) {
+				e = strings.ReplaceAll(e, "merklizeWithCache(", "merklize(")
+				e = strings.ReplaceAll(e, ", p2)", ")")
+				out = append(out, e)
+			}
 		}
-		sort.Strings(out)
-		return out
+		return uniqSorted(out)
 	}
-	a := abbrMap(returnShapes(mz))["ret"]
-	b := abbrMap(returnShapes(mzc))["ret"]
-	sort.Strings(a)
-	bn := norm(b)
+	a := norm(abbrMap(returnShapesO(mz, so))["ret"])
+	bn := norm(abbrMap(returnShapesO(mzc, so))["ret"])
 	// b has one extra arm: the callback
 	var extra []string
 	inA := map[string]bool{}
@@ -174,10 +248,8 @@ func checkC16(c *Ctx) (string, []string) {
 		}
 	}
 	c.Check(missing == 0 && len(extra) == 1 && extra[0] == "p2(p0[0].Key, p0[0].Value)", "C16.sibling-trees", "merklization.merklize ~ merklizeWithCache · arms", mzc.Pos(), "identical arms; cached variant adds cache(key, value) of the single entry", fmt.Sprintf("arms differ: uncached %v ;; cached %v", a, bn))
-	ca, cb2 := abbrAll(condShapes(mz)), abbrAll(condShapes(mzc))
-	sort.Strings(ca)
-	sort.Strings(cb2)
-	c.Check(strings.Join(append(ca, "(nil != p2)"), ";") == strings.Join(cb2, ";"), "C16.sibling-trees", "merklization.merklize ~ merklizeWithCache · cases", mzc.Pos(), "same case analysis (+ nil-callback test)", fmt.Sprintf("case analyses differ: %v vs %v", ca, cb2))
+	ca, cb2 := abbrAll(condAtoms(mz, so)), abbrAll(condAtoms(mzc, so))
+	c.Check(strings.Join(uniqSorted(append(append([]string{}, ca...), "(nil == p2)")), ";") == strings.Join(cb2, ";"), "C16.sibling-trees", "merklization.merklize ~ merklizeWithCache · cases", mzc.Pos(), "same tests (+ nil-callback test)", fmt.Sprintf("tests differ: %v vs %v", ca, cb2))
 	leafArm := "hash.Blake2bHash(merklization.encodeLeafNode(p0[0].Key, p0[0].Value)[:])"
 	c.Check(inA[leafArm], "C16.sibling-trees", "merklization.merklize · leaf arm", mz.Pos(), "leaf arm is Blake2b(encodeLeafNode(key, value))", "merklize has no leaf arm of the expected form")
 	c.checkShapes("C16.sibling-trees", "merklization.EncodeLeafNodeHash", elh, abbrMap(returnShapes(elh)), map[string][]string{"ret": {"hash.Blake2bHash(merklization.encodeLeafNode(p0, p1)[:])"}})
@@ -201,4 +273,13 @@ func calleeFunc2(in ssa.Instruction) *ssa.Function {
 		return calleeFunc(ci)
 	}
 	return nil
+}
+
+func contains(xs []string, s string) bool {
+	for _, x := range xs {
+		if x == s {
+			return true
+		}
+	}
+	return false
 }
